@@ -465,7 +465,23 @@ func (e *fnEnc) call(st *state, at ssa.Value, c *ssa.CallCommon, instr ssa.Instr
 		}
 	}
 	for _, en := range fc.Ensures {
-		t := post.evalBool(en.Expr)
+		t, ok := func() (t string, ok bool) {
+			defer func() {
+				if r := recover(); r != nil {
+					if u, isU := r.(unsupported); isU && strings.Contains(string(u), "unknown type") {
+						// the clause is about a dynamic type of a package this run did not load:
+						// dropping an assumed fact is sound
+						ok = false
+						return
+					}
+					panic(r)
+				}
+			}()
+			return post.evalBool(en.Expr), true
+		}()
+		if !ok {
+			continue
+		}
 		if strings.Contains(t, "forall") || strings.Contains(t, "exists") {
 			e.hasQuant = true
 		}
